@@ -11,6 +11,11 @@ Expected (property C39: "deleting an object deletes exactly the objects reachabl
 pending target has no row; the flush deletes the parent (and the old persistent target) and the pending object is
 simply never inserted / expunged.
 
+Minimal fix (orm/dependency.py, _ManyToOneDP.presort_deletes):
+    -                        if child is None:
+    +                        if child is None or not child.has_identity:
+                                 continue
+
 Run:  cd /tmp && /venv/bin/python /verif/findings/C39_m2o_pending_target_deleted_with_parent.py
 """
 import sys
@@ -35,7 +40,20 @@ class Parent(Base):
     target = relationship(Target, cascade="all, delete-orphan", single_parent=True)
 
 
-def run(variant):
+class Target2(Base):
+    __tablename__ = "target2"
+    id = Column(Integer, primary_key=True)
+    name = Column(String)
+
+
+class Parent2(Base):  # plain delete cascade, no delete-orphan: presort_deletes walks history.non_deleted()
+    __tablename__ = "parent2"
+    id = Column(Integer, primary_key=True)
+    target_id = Column(ForeignKey("target2.id"))
+    target = relationship(Target2, cascade="all")
+
+
+def run(variant, Parent=Parent, Target=Target):
     e = create_engine("sqlite://")
     Base.metadata.create_all(e)
     stmts = []
@@ -72,7 +90,8 @@ def run(variant):
 
 ok1 = run("control")          # delete parent with its loaded persistent target: works
 ok2 = run("pending-target")   # same, after assigning a new pending target
-if ok1 and not ok2:
+ok3 = run("pending-target", Parent2, Target2)  # cascade="all" without delete-orphan: same defect through non_deleted()
+if ok1 and not (ok2 and ok3):
     print("DEFECT REPRODUCED: deleting the parent tries to DELETE the pending (never inserted) many-to-one target")
     sys.exit(1)
 print("not reproduced")
